@@ -37,7 +37,8 @@ CONSTANTS P,          \* keep-alive period (ticks)
           MaxClock,
           MaxPeerKa,  \* KEEPALIVE frames the server sends
           MaxReconnects, \* times the application calls reconnect() (at any moment: healthy, after a time-out, after the close)
-          MaxBlocks   \* times the transport stops accepting writes (back-pressure: the sender is stuck in a write)
+          MaxBlocks,  \* times the transport stops accepting writes (back-pressure: the sender is stuck in a write)
+          MaxFaults   \* times the connection goes half-dead: writes fail from then on, nothing arrives any more (no EOF, no reset)
 
 VARIABLES k          \* the whole state, a record (the actions compose functions on it)
 vars == <<k>>
@@ -48,6 +49,7 @@ Init == k = [now |-> 0, last |-> 0, alive |-> TRUE,
              txKa |-> 0, txEcho |-> 0, unsent |-> 0,
              enqKa |-> 0,                     \* respond-flagged KEEPALIVEs the keep-alive task has queued
              blocked |-> FALSE, blocks |-> 0, \* the transport does not accept writes at the moment
+             faulted |-> FALSE, faults |-> 0, \* the connection is half-dead: the next write fails, nothing arrives
              stuck |-> FALSE,                 \* the sender is inside a write that has not completed
              timeouts |-> 0, toSince |-> 0, closes |-> 0,
              gaps |-> <<>>,                   \* history: now - last at each timeout callback
@@ -60,6 +62,10 @@ Init == k = [now |-> 0, last |-> 0, alive |-> TRUE,
 RECURSIVE Drain(_)
 Drain(s) ==
     IF ~s.senderUp \/ s.sq = <<>> \/ s.stuck THEN s
+    ELSE IF s.faulted THEN
+        \* the write raises a transport error: the sender logs it and ends (its `finally` stops the keep-alive task); nothing is written.
+        \* The watchdog belongs to the receiver, which is still waiting for input: the silence is reported all the same (TimeoutDetected)
+        [s EXCEPT !.senderUp = FALSE, !.kaTaskUp = FALSE, !.unsent = @ + Len(s.sq), !.sq = <<>>]
     ELSE LET f == Head(s.sq)
              s1 == [s EXCEPT !.sq = Tail(@),
                              !.txKa = IF f = "ka" THEN @ + 1 ELSE @,
@@ -83,7 +89,7 @@ Tick == /\ k.now < MaxClock
         /\ k' = Drain(KaTimer(Watchdog([k EXCEPT !.now = @ + 1])))
 
 PeerKa(respond) ==
-    /\ k.peerKas < MaxPeerKa /\ k.recvUp
+    /\ k.peerKas < MaxPeerKa /\ k.recvUp /\ ~k.faulted
     /\ LET s1 == [k EXCEPT !.last = k.now, !.toSince = 0, !.peerKas = @ + 1,
                            !.owed = IF respond THEN @ + 1 ELSE @,
                            !.sq = IF respond /\ k.senderUp THEN Append(@, "echo") ELSE @,
@@ -98,7 +104,7 @@ PeerKa(respond) ==
 
 (* back-pressure: the transport stops / resumes accepting writes.  The keep-alive task keeps queueing its frame every period
    whatever is still waiting to be written. *)
-Block == /\ ~k.blocked /\ k.blocks < MaxBlocks /\ k.senderUp
+Block == /\ ~k.blocked /\ k.blocks < MaxBlocks /\ k.senderUp /\ ~k.faulted
          /\ k' = [k EXCEPT !.blocked = TRUE, !.blocks = @ + 1]
 Unblock == /\ k.blocked
            /\ LET s1 == [k EXCEPT !.blocked = FALSE, !.stuck = FALSE]
@@ -107,17 +113,21 @@ Unblock == /\ k.blocked
                            [s1 EXCEPT !.senderUp = FALSE, !.kaTaskUp = FALSE, !.unsent = @ + Len(s1.sq), !.sq = <<>>]
                       ELSE Drain(s1)
 
+(* the connection goes half-dead (a write to it will fail; the peer's frames no longer arrive; neither EOF nor reset is seen) *)
+WriteFault == /\ k.senderUp /\ ~k.blocked /\ ~k.faulted /\ k.faults < MaxFaults
+              /\ k' = [k EXCEPT !.faulted = TRUE, !.faults = @ + 1]
+
 (* the application reconnects (e.g. from on_keepalive_timeout, or later, or while everything is healthy) *)
 Reconnect ==
     /\ k.reconnects < MaxReconnects
     /\ k' = [k EXCEPT !.reconnects = @ + 1, !.base = k.now, !.last = k.now, !.alive = TRUE,
                       !.closes = IF k.recvUp THEN @ + 1 ELSE @,
                       !.senderUp = TRUE, !.kaTaskUp = TRUE, !.recvUp = TRUE,
-                      !.unsent = @ + Len(k.sq), !.sq = <<>>, !.blocked = FALSE, !.stuck = FALSE,
+                      !.unsent = @ + Len(k.sq), !.sq = <<>>, !.blocked = FALSE, !.stuck = FALSE, !.faulted = FALSE,
                       !.toSince = 0, !.framesAfterDead = 0,
                       !.enqBase = k.enqKa, !.txBase = k.txKa, !.owedBase = k.owed, !.echoBase = k.txEcho]
 
-Next == Tick \/ PeerKa(TRUE) \/ PeerKa(FALSE) \/ Block \/ Unblock \/ Reconnect
+Next == Tick \/ PeerKa(TRUE) \/ PeerKa(FALSE) \/ Block \/ Unblock \/ Reconnect \/ WriteFault
 Spec == Init /\ [][Next]_vars
 
 ----------------------------------------------------------------------------
